@@ -165,6 +165,13 @@ package ociauth
 // decodeAuth: the decoded text is split at its first colon: the user name is
 // non-empty and holds no colon, and user + ":" + password (before the NUL
 // trimming that mirrors the docker CLI) is exactly the decoded text.
+// decodeConfigFile: the loop over the decoded table is left for the code after
+// it only when the iteration is exhausted, so every entry of the document is
+// processed whatever order the map is walked in (the only other way out is
+// the error return for an undecodable auth field).
+//@ func decodeConfigFile
+//@   loop 0 exit exhausted(f.Auths)
+
 //@ func decodeAuth
 //@   modifies nothing
 //@   ensures[split-at-the-first-colon] result.2 == nil ==> result.0 != "" && !contains(result.0, ":") &&
